@@ -49,6 +49,16 @@ pub fn hsalsa20(input: &[u8; 16], key: &[u8; 32]) -> [u8; 32] {
     unsafe { ffi::crypto_core_hsalsa20(out.as_mut_ptr(), input.as_ptr(), key.as_ptr(), std::ptr::null()); }
     out
 }
+pub fn hsalsa20_c(input: &[u8; 16], key: &[u8; 32], c: &[u8; 16]) -> [u8; 32] {
+    let mut out = [0u8; 32];
+    unsafe { ffi::crypto_core_hsalsa20(out.as_mut_ptr(), input.as_ptr(), key.as_ptr(), c.as_ptr()); }
+    out
+}
+pub fn hchacha20_c(input: &[u8; 16], key: &[u8; 32], c: &[u8; 16]) -> [u8; 32] {
+    let mut out = [0u8; 32];
+    unsafe { ffi::crypto_core_hchacha20(out.as_mut_ptr(), input.as_ptr(), key.as_ptr(), c.as_ptr()); }
+    out
+}
 pub fn hchacha20(input: &[u8; 16], key: &[u8; 32]) -> [u8; 32] {
     let mut out = [0u8; 32];
     unsafe { ffi::crypto_core_hchacha20(out.as_mut_ptr(), input.as_ptr(), key.as_ptr(), std::ptr::null()); }
